@@ -197,6 +197,12 @@ class Program:
         self.structs = {}
         self.const_cache = {}
         self.trait_methods = {}  # (TypeName, method) -> [(trait string, fn item)]
+        self.type_alias = {}
+        # several modules define constants / free functions of the same name (API_PATH ...): names are resolved in the
+        # file of the function being evaluated first, then globally
+        self.file_consts = {}  # (file, name) -> expr
+        self.file_fns = {}  # (file, name) -> fn item
+        self.item_file = {}  # id(fn item) -> file
 
     def trait_method(self, ty, name, trait_substr):
         for tr, fn in self.trait_methods.get((ty, name), []):
@@ -204,16 +210,19 @@ class Program:
                 return fn
         return None
 
-    def add_items(self, items):
+    def add_items(self, items, file=None):
         for it in items:
             k = it[0]
             if k == "fn":
                 self.fns[it[1]] = it
+                self.file_fns[(file, it[1])] = it
+                self.item_file[id(it)] = file
             elif k == "impl":
                 ty = it[1].split("<")[0].strip().split("::")[-1].strip()
                 ty = ty.split(" ")[0]
                 for sub in it[3]:
                     if sub[0] == "fn":
+                        self.item_file[id(sub)] = file
                         if it[2] is not None:
                             self.trait_methods.setdefault((ty, sub[1]), []).append((it[2], sub))
                             if (ty, sub[1]) in self.methods and sub[1] == "handle":
@@ -224,9 +233,11 @@ class Program:
                         self.consts[ty + "::" + sub[1]] = sub[3]
             elif k == "const":
                 self.consts[it[1]] = it[3]
+                self.file_consts[(file, it[1])] = it[3]
             elif k == "lazy_static":
                 for c in it[1]:
                     self.consts[c[1]] = c[3]
+                    self.file_consts[(file, c[1])] = c[3]
             elif k == "enum":
                 self.enums[it[1]] = dict(it[2])
                 for v, _shape in it[2]:
@@ -234,7 +245,9 @@ class Program:
             elif k == "struct":
                 self.structs[it[1]] = it[2]
             elif k == "mod":
-                self.add_items(it[2])
+                self.add_items(it[2], file)
+            elif k == "type_alias":
+                self.type_alias[it[1]] = it[2].split("<")[0].strip().split("::")[-1].strip()
 
 
 class Interp:
@@ -247,13 +260,35 @@ class Interp:
         self.pc = []
         self.solver = solver or z3.Solver()
         self.queries = 0
-        self.type_alias = {}
+        self.type_alias = prog.type_alias
         self.max_loop = 4096
+        # lenient mode: calls/methods/names without a model evaluate to opaque Uninterp values (and conditions on them
+        # to fresh Booleans) instead of aborting; used for decision skeletons whose side computations (metrics, response
+        # building) do not matter. Every opaque symbol met is recorded in self.opaque_seen (reported in evidence).
+        self.cur_file = [None]
+        self.lenient = False
+        self.events = []
+        self.opaque = {}
+        self.opaque_seen = set()
+
+    def opaque_bool(self, u):
+        key = repr(u)
+        if key not in self.opaque:
+            self.opaque[key] = z3.Bool("opaque_%d" % len(self.opaque))
+        return self.opaque[key]
+
+    def mk_opaque(self, name, args):
+        self.opaque_seen.add(name)
+        return Uninterp(name, list(args))
+
+    def emit(self, name, payload=None):
+        self.events.append((name, list(self.pc), payload))
 
     # ---------------- path exploration ----------------
     def explore(self, thunk, max_paths=20000):
         """run thunk() under every feasible decision sequence; yields (pc list, result or exception)"""
         results = []
+        self.all_events = []
         stack = [[]]
         while stack:
             prefix = stack.pop()
@@ -261,9 +296,11 @@ class Interp:
             self.dpos = 0
             self.pc = []
             self._pending = []
+            self.events = []
             try:
                 r = thunk()
                 results.append((list(self.pc), r, None))
+                self.all_events.append((list(self.pc), list(self.events)))
             except PathAbort:
                 pass
             except RustPanic as e:
@@ -279,6 +316,10 @@ class Interp:
         """decide a branch condition; forks when symbolic"""
         if isinstance(cond, bool):
             return cond
+        if isinstance(cond, Uninterp):
+            if not self.lenient:
+                raise Unsupported("branch on unmodelled value %r" % (cond,))
+            cond = self.opaque_bool(cond)
         cond = z3.simplify(cond)
         if z3.is_true(cond):
             return True
@@ -320,7 +361,7 @@ class Interp:
     def call_fn(self, name, args):
         if name in self.fn_models:
             return self.fn_models[name](self, args)
-        it = self.prog.fns.get(name)
+        it = self.prog.file_fns.get((self.cur_file[-1], name)) or self.prog.fns.get(name)
         if it is None:
             raise Unsupported("unknown function " + name)
         return self._invoke(it, args)
@@ -333,7 +374,7 @@ class Interp:
         return self._invoke(it, ([recv] if has_self else []) + list(args), self_ty=ty)
 
     def _invoke(self, it, args, self_ty=None):
-        _k, name, params, body = it
+        _k, name, params, body = it[:4]
         if body is None:
             raise Unsupported("function without body " + name)
         if len(params) != len(args):
@@ -343,10 +384,13 @@ class Interp:
         for p, a in zip(params, args):
             if not self.bind(p, a, env):
                 raise Unsupported("refutable parameter pattern in " + name)
+        self.cur_file.append(self.prog.item_file.get(id(it), self.cur_file[-1]))
         try:
             return self.eval(body, env)
         except ReturnEx as r:
             return r.v
+        finally:
+            self.cur_file.pop()
 
     def call_value(self, f, args):
         if isinstance(f, Closure):
@@ -394,6 +438,25 @@ class Interp:
                     env.vars.update(e2.vars)
                     return True
             return False
+        if isinstance(v, Uninterp) and k in ("p_tuple", "p_path", "p_tstruct", "p_struct"):
+            if not self.lenient:
+                raise Unsupported("pattern against unmodelled value %r" % (v,))
+            if k == "p_tuple":
+                for i, p in enumerate(pat[1]):
+                    self.bind(p, self.mk_opaque("proj%d" % i, [v]), env)
+                return True
+            name = pat[1][-1]
+            if not self.branch(self.opaque_bool(Uninterp("is_" + name, [v]))):
+                return False
+            if k == "p_tstruct":
+                for i, p in enumerate(pat[2]):
+                    if not self.bind(p, self.mk_opaque("%s.%d" % (name, i), [v]), env):
+                        return False
+            elif k == "p_struct":
+                for fname, p in pat[2]:
+                    if not self.bind(p, self.mk_opaque("%s.%s" % (name, fname), [v]), env):
+                        return False
+            return True
         if k == "p_tuple":
             if not isinstance(v, (tuple, list)):
                 raise Unsupported("tuple pattern against %r" % (v,))
@@ -498,6 +561,12 @@ class Interp:
             for k in a:
                 r = self.land(r, self.eq(a[k], b[k]))
             return r
+        if isinstance(a, Uninterp) or isinstance(b, Uninterp):
+            if a == b:
+                return True
+            if self.lenient:
+                return self.opaque_bool(Uninterp("eq", [a, b]))
+            raise Unsupported("comparison with unmodelled value")
         if not is_sym(a) and not is_sym(b):
             return a == b
         if isinstance(a, str) or isinstance(b, str) or (is_sym(a) and a.sort() == z3.StringSort()) or (is_sym(b) and b.sort() == z3.StringSort()):
@@ -507,6 +576,10 @@ class Interp:
         return to_bv(a) == to_bv(b)
 
     def cmp(self, op, a, b):
+        if isinstance(a, Uninterp) or isinstance(b, Uninterp):
+            if self.lenient:
+                return self.opaque_bool(Uninterp(op, [a, b]))
+            raise Unsupported("comparison with unmodelled value")
         if not is_sym(a) and not is_sym(b):
             return {"<": a < b, "<=": a <= b, ">": a > b, ">=": a >= b}[op]
         if (is_sym(a) and z3.is_fp(a)) or (is_sym(b) and z3.is_fp(b)):
@@ -520,7 +593,15 @@ class Interp:
             return v
         return z3.FPVal(float(v), z3.Float32())
 
+    def _b(self, x):
+        if isinstance(x, Uninterp):
+            if not self.lenient:
+                raise Unsupported("boolean use of unmodelled value %r" % (x,))
+            return self.opaque_bool(x)
+        return x
+
     def land(self, a, b):
+        a, b = self._b(a), self._b(b)
         if isinstance(a, bool):
             return b if a else False
         if isinstance(b, bool):
@@ -528,6 +609,7 @@ class Interp:
         return z3.And(a, b)
 
     def lor(self, a, b):
+        a, b = self._b(a), self._b(b)
         if isinstance(a, bool):
             return True if a else b
         if isinstance(b, bool):
@@ -535,11 +617,16 @@ class Interp:
         return z3.Or(a, b)
 
     def lnot(self, a):
+        a = self._b(a)
         if isinstance(a, bool):
             return not a
         return z3.Not(a)
 
     def arith(self, op, a, b):
+        if isinstance(a, Uninterp) or isinstance(b, Uninterp):
+            if self.lenient:
+                return self.mk_opaque(op, [a, b])
+            raise Unsupported("arithmetic on unmodelled value")
         if not is_sym(a) and not is_sym(b):
             if isinstance(a, float) or isinstance(b, float):
                 return {"+": a + b, "-": a - b, "*": a * b, "/": a / b}[op]
@@ -601,13 +688,31 @@ class Interp:
 
     # ---------------- constants ----------------
     def const(self, name):
-        if name in self.prog.const_cache:
-            return self.prog.const_cache[name]
-        e = self.prog.consts.get(name)
+        f = self.cur_file[-1]
+        if (f, name) in self.prog.file_consts:
+            key = (f, name)
+            e = self.prog.file_consts[key]
+            cf = f
+        else:
+            key = (None, name)
+            e = self.prog.consts.get(name)
+            cf = None
+            if e is not None:
+                # remember the defining file so that nested constant references resolve there
+                for (ff, nn), ee in self.prog.file_consts.items():
+                    if nn == name and ee is e:
+                        cf = ff
+                        break
+        if key in self.prog.const_cache:
+            return self.prog.const_cache[key]
         if e is None:
             raise Unsupported("unknown constant " + name)
-        v = self.eval(e, Env())
-        self.prog.const_cache[name] = v
+        self.cur_file.append(cf)
+        try:
+            v = self.eval(e, Env())
+        finally:
+            self.cur_file.pop()
+        self.prog.const_cache[key] = v
         return v
 
     # ---------------- expression evaluation ----------------
@@ -638,6 +743,8 @@ class Interp:
                 return ("fnref", name)
             if name in ("Some", "Ok", "Err"):
                 return ("ctor", name)
+            if self.lenient:
+                return self.mk_opaque(name, [])
             raise Unsupported("unknown name " + name)
         # multi segment
         full2 = "::".join(segs[-2:])
@@ -673,6 +780,8 @@ class Interp:
             raise Unsupported("no field %s in %s" % (name, v.ty))
         if isinstance(v, dict) and name in v:
             return v[name]
+        if self.lenient:
+            return self.mk_opaque("." + name, [v])
         raise Unsupported("field %s of %r" % (name, v))
 
     def ev_tupidx(self, e, env):
@@ -713,6 +822,8 @@ class Interp:
     def ev_cast(self, e, env):
         v = self.eval(e[1], env)
         ty = e[2].strip()
+        if isinstance(v, Uninterp):
+            return v
         if ty in ("f32", "f64"):
             if is_sym(v):
                 if z3.is_fp(v):
@@ -733,10 +844,18 @@ class Interp:
             if v.variant in ("Ok", "Some"):
                 return v.payload[0]
             raise ReturnEx(v)
+        if isinstance(v, Uninterp) and self.lenient:
+            if self.branch(self.opaque_bool(Uninterp("is_ok", [v]))):
+                return self.mk_opaque("unwrap", [v])
+            raise ReturnEx(self.mk_opaque("err", [v]))
         raise Unsupported("? on %r" % (v,))
 
     def ev_unary(self, e, env):
         v = self.eval(e[2], env)
+        if isinstance(v, Uninterp):
+            if e[1] == "!":
+                return self.lnot(v)
+            return self.mk_opaque("neg", [v])
         if e[1] == "!":
             if isinstance(v, bool) or (is_sym(v) and z3.is_bool(v)):
                 return self.lnot(v)
@@ -835,7 +954,7 @@ class Interp:
             b = self.eval(base, env)
             if isinstance(b, dict):
                 vals.update(b)
-            else:
+            elif not self.lenient:
                 raise Unsupported("struct base %r" % (b,))
         for fname, fe in fields:
             vals[fname] = self.eval(fe, env)
@@ -1039,6 +1158,8 @@ class Interp:
             return ()
         if name in ("panic", "unreachable", "todo", "unimplemented"):
             raise RustPanic(name)
+        if self.lenient:
+            return self.mk_opaque(name + "!", [])
         raise Unsupported("macro %s!" % name)
 
     def ev_call(self, e, env):
@@ -1049,11 +1170,12 @@ class Interp:
             name = segs[-1]
             if len(segs) == 1 and env.has(name):
                 return self.call_value(env.lookup(name), args)
-            if name == "Some" and len(segs) <= 2:
+            std_ctor = len(segs) == 1 or segs[-2] in ("Option", "Result")
+            if name == "Some" and std_ctor:
                 return Some(args[0])
-            if name == "Ok" and len(segs) <= 2:
+            if name == "Ok" and std_ctor:
                 return Ok(args[0])
-            if name == "Err" and len(segs) <= 2:
+            if name == "Err" and std_ctor:
                 return Err(args[0])
             full2 = "::".join(segs[-2:])
             if full2 in self.fn_models:
@@ -1079,15 +1201,23 @@ class Interp:
                 if owner == "Regex" and name == "new":
                     return Ok(Regex(args[0]))
                 if owner == "Default" and name == "default":
+                    if "Default::default" in self.fn_models:
+                        return self.fn_models["Default::default"](self, args)
+                    if self.lenient:
+                        return self.mk_opaque("Default::default", [])
                     raise Unsupported("Default::default() without type")
             if name in self.fn_models:
                 return self.fn_models[name](self, args)
             if name in self.prog.fns and len(segs) <= 3:
-                return self._invoke(self.prog.fns[name], args)
+                return self._invoke(self.prog.file_fns.get((self.cur_file[-1], name)) or self.prog.fns[name], args)
             if name in self.prog.variant_owner and len(segs) == 1:
                 return Enum(sorted(self.prog.variant_owner[name])[0], name, list(args))
+            if self.lenient:
+                return self.mk_opaque("::".join(segs[-2:]), args)
             raise Unsupported("call of unknown function %s" % "::".join(segs))
         fv = self.eval(f, env)
+        if isinstance(fv, Uninterp) and self.lenient:
+            return self.mk_opaque("call", [fv] + args)
         return self.call_value(fv, args)
 
     def ev_mcall(self, e, env):
@@ -1106,7 +1236,16 @@ class Interp:
             return self.call_method(ty, name, recv, args)
         if (None, name) in self.models:
             return self.models[(None, name)](self, recv, args)
-        return self.std_method(recv, name, args)
+        if isinstance(recv, Uninterp):
+            if self.lenient:
+                return self.mk_opaque("." + name, [recv] + list(args))
+            raise Unsupported("method %s on unmodelled value %r" % (name, recv))
+        try:
+            return self.std_method(recv, name, args)
+        except Unsupported:
+            if self.lenient:
+                return self.mk_opaque("." + name, [recv] + list(args))
+            raise
 
     def std_method(self, recv, name, args):
         # identity-like
